@@ -659,6 +659,15 @@ class Program:
             kw["cache"] = self.caches[n["id"]] = FaultyMemoryCache(name)
         elif ck == "faulty_front":
             kw["cache"] = self.caches[n["id"]] = FaultyFront(name)
+        elif ck == "shared_factory":
+            # ONE configured factory reused for several definitions: memo = dataset(cache=MemoryCache) -- the cache is given
+            # as a class (a callable), so every dataset made by the factory gets an instance of its own
+            if not hasattr(self, "_shared_factory"):
+                self._shared_factory = {}
+            key = bool(n.get("abstract"))
+            if key not in self._shared_factory:
+                self._shared_factory[key] = factory(cache=MemoryCache)
+            factory = self._shared_factory[key]
         ds = factory(fn, **kw)
         for alias, impl in n.get("overloads", []):
             self.register(ds, alias, impl, cache_kind=ck)
